@@ -1462,7 +1462,9 @@ func (f *formatter) ExprYield(n *ast.ExprYield) {
 		f.addFreeFloating(token.T_WHITESPACE, []byte(" "))
 	}
 
-	n.Val.Accept(f)
+	if n.Val != nil {
+		n.Val.Accept(f)
+	}
 }
 
 func (f *formatter) ExprYieldFrom(n *ast.ExprYieldFrom) {
